@@ -8,6 +8,7 @@ import (
 	"go/types"
 	"math/big"
 	"os"
+	"sort"
 	"strconv"
 	"strings"
 
@@ -381,9 +382,13 @@ func (ev *Env) addrOf(e *Expr) Val {
 	case "sel":
 		base := ev.eval(e.Args[0])
 		if base.K != KRef {
+			// x.f where x is itself a struct lvalue (embedded struct field)
+			base = ev.addrOf(e.Args[0])
+		}
+		pt, isPtr := base.Typ.Underlying().(*types.Pointer)
+		if !isPtr {
 			efail("&x.f needs pointer base")
 		}
-		pt := base.Typ.Underlying().(*types.Pointer)
 		obj, path, _ := types.LookupFieldOrMethod(base.Typ, true, ev.pkg, e.S)
 		fld, ok := obj.(*types.Var)
 		if !ok {
@@ -1083,6 +1088,21 @@ func (ev *Env) call(e *Expr) Val {
 			sum = app("bvadd", sum, iteT(and(app("bvslt", bi, s.Len), eq(ev.c.sliceElem(s, bi).T, cb.T)), bvLit(128, 1), bvLit(128, 0)))
 		}
 		return wideVal(sum)
+	case "unchanged_all":
+		// every memory array known so far is the same as in the old state
+		if ev.old == nil {
+			return boolVal("true")
+		}
+		var ks []string
+		for k := range memSorts {
+			ks = append(ks, k)
+		}
+		sort.Strings(ks)
+		var ts []Term
+		for _, k := range ks {
+			ts = append(ts, eq(ev.c.memRaw(ev.mem, k), ev.c.memRaw(ev.old.mem, k)))
+		}
+		return boolVal(and(ts...))
 	case "same":
 		// representation equality (all leaves equal): a copied value
 		a, b := arg(0), arg(1)
